@@ -439,3 +439,55 @@ def spec_validate_exclusive(fns, consts):
 
 
 SPECS["C03"] = [spec_validate_exclusive]
+
+
+# ------------------------------------------------------------------ C10: unknown-token triage
+
+def spec_match_arg_error(fns, consts):
+    """Parser::match_arg_error: each error constructor is reached only under the condition that justifies it."""
+    con = contracts.Contracts(fns, default_pure=True)
+    ctx = symex.Ctx(consts, con)
+    fn = _find(fns, "parser/parser.rs", "match_arg_error")
+    valid = ("bool", ctx.sym("valid_arg_found", "Bool"))
+    trailing = ("bool", ctx.sym("trailing_values", "Bool"))
+    ex = symex.Exec(ctx, fn, [("opq", "self"), ("opq", "arg_os"), valid, trailing, ("opq", "matcher")]).run()
+    obs = list(ex.obligations)
+
+    def shape(msg, pc=()):
+        obs.append({"fn": fn.name, "block": "shape", "kind": "spec", "target": "match_arg_error", "msg": msg, "pc": list(pc), "neg": "true"})
+    try:
+        has_sub = _key_sym(ctx, r"Command::has_subcommands\(", "Bool")
+        acws = _key_sym(ctx, r"Command::is_args_conflicts_with_subcommands_set\(", "Bool")
+        ps = _key_sym(ctx, r"^is_some\(.*possible_subcommand\(", "Bool")
+        cand_empty = _key_sym(ctx, r"^Vec::<String>::is_empty\(", "Bool")
+        has_pos = _key_sym(ctx, r"Command::has_positionals\(", "Bool")
+        infer = _key_sym(ctx, r"Command::is_infer_subcommands_set\(", "Bool")
+    except Unsupported as e:
+        shape("match_arg_error no longer has the reference shape: " + str(e)[:120])
+        return ctx, obs, [_enc(fn, ex, 1)], con
+    conflict = f"(and {has_sub} {acws} {valid[1]})"
+    just = {
+        "unnecessary_double_dash": f"(and {trailing[1]} {ps})",
+        "subcommand_conflict": conflict,
+        "invalid_subcommand": f"(and {has_sub} (not {conflict}) (not {cand_empty}))",
+        "unrecognized_subcommand": f"(and {has_sub} (not {conflict}) {cand_empty} (or (not {has_pos}) {infer}))",
+        "unknown_argument": f"(not (and {has_sub} (or {conflict} (not {cand_empty}) (not {has_pos}) {infer})))",
+    }
+    seen = set()
+    for pc, val in ex.returns:
+        key = val[1] if val[0] == "opq" else ""
+        m = re.search(r"Error(?:::<[^>]*>)?::(\w+)\(", key)
+        if not m or m.group(1) not in just:
+            shape("an error path is built by an unknown constructor: " + key[:60], pc)
+            continue
+        k = m.group(1)
+        seen.add(k)
+        obs.append({"fn": fn.name, "block": "ret", "kind": "spec", "target": "match_arg_error", "msg": f"{k} only under its justifying condition", "pc": list(pc), "neg": f"(not {just[k]})"})
+    if seen != set(just):
+        shape(f"expected constructors {sorted(just)}, saw {sorted(seen)}")
+    for o in obs:
+        o.setdefault("target", "match_arg_error")
+    return ctx, obs, [_enc(fn, ex, len(ex.returns))], con
+
+
+SPECS["C10"].append(spec_match_arg_error)
